@@ -150,7 +150,7 @@ def run(ctx, rep):
         if d.startswith('server::state::') or d.startswith('<server::state::'):
             continue
         jb = ctx.body(d)
-        e = jb.pexpr_operand(c.args[2])
+        e = jb.pexpr_operand(c.args[2], 0, frozenset(), (c.bb, "t"))
         leaks = tainted_leaks(e)
         # a secret-bearing command copied wholesale (`..command` / `EntryCommand::X(command)`) leaks its secret fields
         for x in walk(e):
@@ -177,7 +177,7 @@ def run(ctx, rep):
     # constructor sites of User with a password: User::new(.., password, ..) hashes inside; with_password / from state take a hash
     for d, c in callers_of(ctx, 'server::streaming::users::user::User::new'):
         ub = ctx.body(d)
-        pw = ub.pexpr_operand(c.args[2]) if len(c.args) > 2 else None
+        pw = ub.pexpr_operand(c.args[2], 0, frozenset(), (c.bb, "t")) if len(c.args) > 2 else None
         nb = ctx.fn_body('server::streaming::users::user::User::new')
         hashed_inside = any(x.name.endswith('crypto::hash_password') for x in nb.calls) or any(x.name.endswith('User::with_password') for x in nb.calls)
         rep.ob('R10.c', ctx.user_fn_of(d), 'User::new hashes the password', hashed_inside, c.where(), 'User::new → hash_password' if hashed_inside else 'User::new stores the password it is given without hashing')
@@ -235,6 +235,11 @@ def run(ctx, rep):
                     f = ins[0].bb not in ib.reachable(expired_edge, avoid_blocks={bb} | heads)
         rep.ob('R10.e', 'server::state::system::SystemState::init', 'expired tokens dropped', bool(f), ins[0].where() if ins else None,
                'the token insert is unreachable from the expired edge' if f else 'replay re-installs a token that is already expired (or the expiry test is gone)')
+
+    # ------------------------------------------------------------ R10.h a journalled credential change names the user it was made for
+    rep.rule('R10.h', 'a journalled credential command (ChangePassword, CreateUser, UpdateUser, DeleteUser, token create / delete) names the user or token of the request, not the session: after a restart the new password belongs to the same user as before it', floor=4, analysis='A9 provenance')
+    from props.c05 import journal_entity_provenance, journalling_sites
+    journal_entity_provenance(ctx, rep, 'R10.h', journalling_sites(ctx), only={'ChangePassword', 'CreateUser', 'UpdateUser', 'DeleteUser', 'CreatePersonalAccessToken', 'DeletePersonalAccessToken', 'UpdatePermissions'})
 
 
 def _type_of_expr(ctx, body, e):
